@@ -11,18 +11,27 @@ ENV_UNIT = ["env/plat_seq.c", "env/logger_stub.c", "env/devstr_stub.c", "lib/mem
 def source_unit(H, VERIF, scn, nmax, ring, envmax=8, timeout=1500, solver="cadical", tag=""):
     names = {0: "plain", 1: "abort", 2: "camfault", 3: "sinkdied"}
     return H("source_%s_N%d_K%d%s" % (names[scn], nmax, ring, tag), "harness/runtime/source_unit.c",
-             repo=[RT + "channel.c", HAL + "camera.c", HAL + "driver.c", COMP], env=ENV_UNIT,
-             defines=["MODE=1", "SCN=%d" % scn, "NMAX=%d" % nmax, "RING_FRAMES=%d" % ring, "ENV_MAX=%d" % envmax],
-             cflags=cflags(VERIF), unwind=max(nmax + 3, 5), unwindset={"verif_memset_b.0": ring * 104 + 16, "verif_on_wait.0": envmax + 1},
+             repo=[HAL + "camera.c", HAL + "driver.c", COMP], env=ENV_UNIT + ["env/chan_contract.c"],
+             defines=["MODE=1", "SCN=%d" % scn, "NMAX=%d" % nmax, "RING_FRAMES=%d" % ring, "ENV_MAX=%d" % envmax, "TAPE_BYTES=%d" % ((nmax + 1) * 104), "WRITE_UNIT=104"],
+             cflags=cflags(VERIF), unwind=nmax + 3, unwindset={"channel_write_map.0": 4, "min_consumed.0": 9, "tape_at.0": 12},
              solver=solver, timeout=timeout, mem_gb=24,
              what="real video_source_thread + channel + HAL camera vs. environment readers (scenario: %s), boundary scheduling" % names[scn],
              bounds=dict(frames="1..%d" % nmax, ring_frames=ring, env_steps=envmax, readers="checker + optional lazy reader"))
-def sink_unit(H, VERIF, scn, nmax, ring, polls=3, envmax=10, timeout=1500, solver="cadical", tag=""):
+def sink_unit(H, VERIF, scn, nmax, ring, polls=3, envmax=10, timeout=1500, solver="cadical", tag="", delay0=False):
     names = {0: "plain", 1: "stofault", 2: "abort"}
     return H("sink_%s_N%d_K%d%s" % (names[scn], nmax, ring, tag), "harness/runtime/sink_unit.c",
-             repo=[RT + "channel.c", RT + "vfslice.c", RT + "throttler.c", HAL + "storage.c", HAL + "driver.c", COMP], env=ENV_UNIT,
-             defines=["SCN=%d" % scn, "NMAX=%d" % nmax, "RING_FRAMES=%d" % ring, "POLL_MAX=%d" % polls, "ENV_MAX=%d" % envmax],
-             cflags=cflags(VERIF), unwind=max(nmax + 4, polls + 2, 6), unwindset={"verif_memset_b.0": ring * 104 + 16},
-             solver=solver, timeout=timeout, mem_gb=24,
+             repo=[RT + "vfslice.c", RT + "throttler.c", HAL + "storage.c", HAL + "driver.c", COMP], env=ENV_UNIT + ["env/chan_contract.c"],
+             defines=["SCN=%d" % scn, "NMAX=%d" % nmax, "RING_FRAMES=%d" % ring, "POLL_MAX=%d" % polls, "ENV_MAX=%d" % envmax, "TAPE_BYTES=%d" % ((nmax + 1) * 104), "WRITE_UNIT=104"] + (["FIX_DELAY0=1"] if delay0 else []),
+             cflags=cflags(VERIF), unwind=nmax + 3, unwindset={"min_consumed.0": 9, "tape_at.0": 12, "video_sink_thread.0": nmax + 3, "video_sink_thread.1": nmax + 3, "video_sink_thread.2": polls + 2, "video_sink_thread.3": nmax + 3, "video_sink_thread.4": nmax + 3, "video_sink_thread.5": nmax + 3},
+             solver=solver, timeout=timeout, mem_gb=28, drop_flags=["--pointer-overflow-check"],
              what="real video_sink_thread + vfslice + channel + HAL storage vs. an environment writer committing frames at arbitrary boundaries (scenario: %s)" % names[scn],
              bounds=dict(frames="1..%d" % nmax, ring_frames=ring, polls=polls, env_steps=envmax, write_delay="0 or >0 with arbitrary clock"))
+
+def start_flags(H, VERIF, which):
+    nm = {1: "sink", 2: "source", 3: "filter"}[which]
+    repo = {1: [HAL + "storage.c", HAL + "driver.c", COMP], 2: [HAL + "camera.c", HAL + "driver.c", COMP], 3: [RT + "frame_iterator.c", COMP]}[which]
+    return H("start_flags_%s" % nm, "harness/runtime/start_flags.c", repo=repo, env=ENV_UNIT + ["env/chan_contract.c"],
+             defines=["WHICH=%d" % which, "TAPE_BYTES=208", "WRITE_UNIT=104"], cflags=cflags(VERIF), unwind=9, unwindset={"tape_at.0": 12},
+             solver="cadical", timeout=600, mem_gb=12,
+             what="video_%s_start from ARBITRARY is_stopping/is_running left by an earlier acquisition: after a successful start is_stopping == 0, is_running == 1, device started" % nm,
+             bounds=dict(flags="any 8-bit value"))
